@@ -16,8 +16,8 @@ def run(ctx):
     r = ctx.tlc("MC_Values", "MC_Values.cfg").require_clean()
     res.add_tlc(r)
     cells = ctx.tlc("MC_Values", "Gen_Values.cfg").json_lines("GEN")
-    if len(cells) != 200:
-        raise vlib.Inconclusive("expected 200 table cells, generator gave %d" % len(cells))
+    if len(cells) != 234:
+        raise vlib.Inconclusive("expected 234 table cells, generator gave %d" % len(cells))
     evs, _, _ = run_harness(ctx, "object", "TestVerifAccessors", {"cells": cells, "draws": 12 if q else 150})
     bad, r2 = vlib.judge(ctx, "T_Values", "T_Values.cfg", evs)
     res.traces = len(evs)
